@@ -248,7 +248,7 @@ def run_coq_files(files, timeout=300):
     return res
 
 
-def shard_cases(prop, cases, extra_imports, per=40):
+def shard_cases(prop, cases, extra_imports, per=40, _depth=0):
     """cases: list of (case_id, definitions_text, bool_expr_text).  Each case gets a kernel-checked
     `assert (expr = true) by (vm_compute; reflexivity)` inside one Qed-closed lemma per shard;
     PASS/FAIL is printed per case.  returns dict case_id -> bool and the coqc command used"""
@@ -273,7 +273,7 @@ def shard_cases(prop, cases, extra_imports, per=40):
                     )
             fh.write("  exact I.\nQed.\n")
         files.append(name)
-    out = run_coq_files(files)
+    out = run_coq_files(files, timeout=300 if _depth == 0 else 180)
     results = {}
     logs = []
     for f, (rc, text) in out.items():
@@ -281,8 +281,23 @@ def shard_cases(prop, cases, extra_imports, per=40):
             results[m.group(1)] = m.group(2) == "PASS"
         if rc != 0:
             logs.append(f"{f}: rc={rc}\n{text[-2000:]}")
-    for cid, _, _ in cases:
-        results.setdefault(str(cid), False)
+    # cases whose shard was stopped before they were reached (or while they ran): run each alone, so that one
+    # expensive case does not take the rest of its shard with it
+    def keys_of(c):
+        cid, _, expr = c
+        return [f"{cid}{s}" for s, _ in (expr if isinstance(expr, list) else [("", expr)])]
+
+    missing = [c for c in cases if any(k not in results for k in keys_of(c))]
+    if missing and _depth == 0:
+        r2, l2, _ = shard_cases(prop + "R", missing, extra_imports, per=1, _depth=1)
+        for k, v in r2.items():
+            results.setdefault(k, v)
+        logs += l2
+    for c in cases:
+        for k in keys_of(c):
+            if k not in results:
+                results[k] = False
+                results.setdefault("__unfinished__", []).append(k)
     return results, logs, "coqc -Q . FV Cases/" + prop + "_<shard>.v  (assert (check = true) by (vm_compute; reflexivity) ... Qed)"
 
 
